@@ -50,8 +50,8 @@ type QueryLog struct {
 type Server struct {
 	Tag string
 
-	// Hook, if set, may change the directives for a query (scripted scenarios).
-	Hook func(q *QueryLog, d *Directives)
+	hook   func(q *QueryLog, d *Directives)
+	mutate func(q *QueryLog, reply []byte) []byte
 	// KeepRaw stores the wire bytes of every query in the log.
 	KeepRaw bool
 
@@ -71,6 +71,20 @@ type Server struct {
 
 func NewServer(tag string) *Server {
 	return &Server{Tag: tag, Addr: map[string]string{}}
+}
+
+// SetHook installs a function that may change the directives for a query (scripted scenarios).
+func (s *Server) SetHook(f func(q *QueryLog, d *Directives)) {
+	s.mu.Lock()
+	s.hook = f
+	s.mu.Unlock()
+}
+
+// SetMutate installs a function that may replace the wire bytes of a reply (hostile upstream scenarios).
+func (s *Server) SetMutate(f func(q *QueryLog, reply []byte) []byte) {
+	s.mu.Lock()
+	s.mutate = f
+	s.mu.Unlock()
 }
 
 // OpenConns returns the number of transport-level connections (TCP/TLS streams, HTTP
@@ -153,8 +167,11 @@ func (s *Server) decide(transport string, conn int64, raw []byte) *action {
 		first = l[0]
 	}
 	d := ParseDirectives(first)
-	if s.Hook != nil {
-		s.Hook(ql, &d)
+	s.mu.Lock()
+	hook, mutate := s.hook, s.mutate
+	s.mu.Unlock()
+	if hook != nil {
+		hook(ql, &d)
 	}
 	ql.Kind = d.Kind
 	a := &action{kind: d.Kind, http: d.HTTP, delay: time.Duration(d.Delay) * time.Millisecond, ql: ql}
@@ -194,6 +211,9 @@ func (s *Server) decide(transport string, conn int64, raw []byte) *action {
 		return a
 	}
 	ql.Serial, ql.Rcode, ql.TC = serial, m.Rcode, m.Truncated
+	if mutate != nil {
+		b = mutate(ql, b)
+	}
 	a.reply = b
 	if d.Kind == "half" {
 		a.kind = "half"
